@@ -38,7 +38,9 @@ EXPLANATION = (
     "slacks are NODE_TYPE==P & connected, thermal slacks NODE_TYPE_T in {T, GE}, FLOW_RETURN_CONNECT branches are removed "
     "before and re-admitted after the search only if both ends are connected and the branch is active, and its writers "
     "are exactly FlowControl (control_active rows) and HeatConsumer; (R4.7) the adjacency concatenations of "
-    "_connectivity are pairwise aligned. Not decided: the graph-search result itself and equality with the reduced "
+    "_connectivity are pairwise aligned; (R4.8) the hooks that run on the reduced pit inside the Newton loop "
+    "(adaption_before/after_derivatives_*) read no element table of the net -- per-element data reaches them through the "
+    "pit or through get_component_array, which is reduced by the same active lookup. Not decided: the graph-search result itself and equality with the reduced "
     "network (runtime).")
 ASSUMPTIONS = ["scipy.sparse.csgraph.breadth_first_order returns the nodes reachable from the start node",
                "numpy arithmetic propagates NaN", "transient=False"]
@@ -70,6 +72,9 @@ def _rows_of(t, L):
         if sel == C(0) and inner[0] == "call" and inner[1] in (np_("where"), np_("nonzero")) and len(inner[2]) == 1:
             r = _rows_of(inner[2][0], L)
             return r if r in ("active", "inactive") else None
+    if t[0] == "proj" and t[2] == 0 and t[1][0] == "call" and t[1][1] in (np_("where"), np_("nonzero")) and len(t[1][2]) == 1:
+        r = _rows_of(t[1][2][0], L)
+        return r if r in ("active", "inactive") else None
     if t[0] == "call" and t[1] == np_("flatnonzero") and len(t[2]) == 1:
         r = _rows_of(t[2][0], L)
         return r if r in ("active", "inactive") else None
@@ -612,4 +617,53 @@ def r4_7(run):
     run.floor(12)
 
 
-RULES = [("R4.1", r4_1), ("R4.2", r4_2), ("R4.3", r4_3), ("R4.4", r4_4), ("R4.5", r4_5), ("R4.7", r4_7)]
+def r4_8(run):
+    """the hooks that run inside the Newton loop (adaption_before/after_derivatives_hydraulic/thermal) receive the *reduced* pit:
+    row k is the k-th calculated element, not the k-th table row.  Per-element data reaches them only through the pit or through
+    get_component_array (which is reduced by the same active lookup); reading a column of an element table of the net there pairs
+    table rows with active rows and gives the calculated elements the data of other elements as soon as one element is not
+    calculated"""
+    ix = run.index
+    allowed = ("std_types", "fluid", "converged", "user_pf_options", "component_list", "name")
+    n = 0
+    for c in ix.all_classes():
+        for mn, m in sorted(c.methods.items()):
+            if not mn.startswith("adaption_"):
+                continue
+            n += 1
+            run.analysed(m)
+            ps = m.params()
+            netp = ps[1] if len(ps) > 1 else "net"
+            r = ANF(ix, m, param_alias={netp: "net"}).run()
+            hits = {}
+            for e in r.events:
+                ts = [e.value] if e.kind in ("store", "return", "raise") else ([e.term] if e.kind == "call" else [])
+                if e.kind == "store":
+                    ts += list(e.index) + [e.base]
+                ts += [c_ for c_, _ in e.cond]
+                for t in ts:
+                    for x in walk(t):
+                        if x[0] == "idx" and x[1] == ("n", "net") and len(x[2]) == 1:
+                            k = x[2][0]
+                            if k[0] == "c" and (str(k[1]).startswith("_") or k[1] in allowed):
+                                continue
+                            hits.setdefault(show(x)[:60], e.node)
+            run.ob("%s.%s|no-element-table-read" % (c.name, mn), not hits,
+                   "%s.%s works on the reduced pit and reads no element table of the net" % (c.name, mn),
+                   run.where(m, next(iter(hits.values())) if hits else m.node), detail="; ".join(sorted(hits)))
+    # the component array handed out for the loop is reduced by the active lookup of the mode
+    gca = ix.func("pandapipes.component_models.component_toolbox.get_component_array")
+    run.analysed(gca)
+    ps = gca.params()
+    r = ANF(ix, gca, consts={ps[4]: True}, param_alias=dict(zip(ps, ("net", "name", "ctype", "mode")))).run()
+    rets = r.returns()
+    want = expect(ix, gca, "net['_pit']['components'][name][get_lookup(net, ctype, 'active_%s' % mode)"
+                           "[get_lookup(net, ctype, 'from_to')[name][0]:get_lookup(net, ctype, 'from_to')[name][1]]]")
+    run.ob("get_component_array|reduced-by-active-lookup", len(rets) == 1 and key(rets[0].value) == key(want),
+           "get_component_array(only_active=True) returns the rows of the component array selected by the active lookup of the mode "
+           "over the component's pit range", run.where(gca, gca.node), detail=show(rets[0].value)[:200] if rets else None)
+    run.ob("adaption-hooks-found", n >= 15, "adaption hooks analysed: %d" % n, "component_models")
+    run.floor(15)
+
+
+RULES = [("R4.1", r4_1), ("R4.2", r4_2), ("R4.3", r4_3), ("R4.4", r4_4), ("R4.5", r4_5), ("R4.7", r4_7), ("R4.8", r4_8)]
